@@ -441,7 +441,10 @@ func (g *Gen) noise(c stageCtx) {
 			ex := g.validExpel(h, k)
 			ex.Start, ex.End = h, h
 			ex.ID += "-stuck"
-			if r.Intn(4) == 0 { // under-signed variant
+			if len(ex.Signers) < 1 {
+				return // nobody left to sign the expels
+			}
+			if r.Intn(4) == 0 && len(ex.Signers) > 1 { // under-signed variant
 				ex.Signers = ex.Signers[:1]
 				ex.ID += "-under"
 			}
